@@ -48,9 +48,11 @@ fn precisions(n: usize) -> Vec<usize> {
     if n <= 65 {
         (0..=2 * n + 2).collect()
     } else {
-        let mut v: Vec<usize> = vec![0, 1, 2, 3, 31, 32, 33, 63, 64, 65, 2047, 2048, 2049, 2050, 4095, 4096, 4097, 6143, 6144, 6145, n - 1, n, n + 1];
+        let mut v: Vec<usize> = vec![0, 1, 2, 3, 31, 32, 33, 63, 64, 65, 2047, 2048, 2049, 2050, 4095, 4096, 4097, 6143, 6144, 6145, 8191, 8192, 8193, 12287, 12288, 12289, 16383, 16384, 16385, 32767, 32768, 32769, n - 1, n, n + 1];
         v.extend([2 * n - 3, 2 * n - 2, 2 * n - 1, 2 * n, 2 * n + 1, 2 * n + 7]);
-        v.retain(|&p| p <= 2 * n + 7);
+        // std's formatting machinery itself refuses a precision above u16::MAX ("Formatting argument out of range")
+        v.extend([65534, 65535]);
+        v.retain(|&p| p <= 2 * n + 7 && p <= u16::MAX as usize);
         v.sort();
         v.dedup();
         v
@@ -137,7 +139,12 @@ fn main() {
     type U3000 = Prod<U3, U1000>;
     type U1025 = Add1<U1024>;
     type U2049 = Add1<U2048>;
-    for_ns!([U0, U1, U2, U3, U4, U5, U6, U7, U8, U9, U10, U11, U12, U13, U14, U15, U16, U17, U31, U32, U33, U63, U64, U65, U1023, U1024, U1025, U2047, U2048, U2049, U3000, U4096], N => {
+    type U4097 = Add1<U4096>;
+    type U5000 = Prod<U5, U1000>;
+    type U8191 = Sub1<U8192>;
+    type U8193 = Add1<U8192>;
+    type U16385 = Add1<U16384>;
+    for_ns!([U0, U1, U2, U3, U4, U5, U6, U7, U8, U9, U10, U11, U12, U13, U14, U15, U16, U17, U31, U32, U33, U63, U64, U65, U1023, U1024, U1025, U2047, U2048, U2049, U3000, U4096, U4097, U5000, U8191, U8192, U8193, U10000, U16384, U16385, U65536], N => {
         let n = N::USIZE;
         let mut pats: Vec<u32> = vec![0x1000, 0x1001, 0x1002];
         // a_k[i] = (37 i + k) mod 256: over all k every byte value occurs at every index
